@@ -325,6 +325,52 @@ struct OBox : IOpt
                 o.raw("samples", s + "]");
             }
         }
+        else if (op == "evaluate_mt")
+        {
+            // several threads evaluate concurrently on THIS optimizer, each with its own workspace (the documented thread-safe use)
+            const int nt = (int)cmd["xs"].size();
+            std::vector<Eigen::VectorXd> xs(nt), gs(nt);
+            std::vector<double> costs(nt, 0.0);
+            for (int t = 0; t < nt; ++t)
+            {
+                const std::vector<double> xv = hx::vec(cmd["xs"][t]);
+                xs[t] = Eigen::Map<const Eigen::VectorXd>(xv.data(), xv.size());
+            }
+            const CostParams P = CostParams::from(cmd.contains("costs") ? cmd["costs"] : hx::json::object());
+            const int overload = cmd.value("overload", 3);
+            const int rounds = cmd.value("rounds", 1);
+            std::vector<std::unique_ptr<WS>> wss;
+            for (int t = 0; t < nt; ++t)
+                wss.emplace_back(new WS());
+            std::atomic<int> ready{0};
+            std::vector<std::thread> th;
+            const Opt *copt = opt;
+            for (int t = 0; t < nt; ++t)
+                th.emplace_back([&, t]()
+                                {
+                    ready.fetch_add(1);
+                    while (ready.load() < nt) { }       // start together
+                    for (int q = 0; q < rounds; ++q)
+                    {
+                        TimeCost tc{P};
+                        WpCost wc{P};
+                        RunCost<Vec> rc{P, nullptr};
+                        costs[t] = (overload == 2) ? copt->evaluate(xs[t], gs[t], tc, rc, wss[t].get(), SerialExecutor())
+                                                   : copt->evaluate(xs[t], gs[t], tc, wc, rc, wss[t].get(), SerialExecutor());
+                    } });
+            for (auto &x : th)
+                x.join();
+            std::string r = "[";
+            for (int t = 0; t < nt; ++t)
+            {
+                hx::Out so;
+                so.d("cost", costs[t]).v("grad", gs[t]);
+                if (t)
+                    r += ",";
+                r += so.done();
+            }
+            o.raw("results", r + "]");
+        }
         else if (op == "check_grad")
         {
             const std::vector<double> xv = hx::vec(cmd["x"]);
